@@ -239,6 +239,29 @@ PROPS["C07"] = {
     "assumptions": [],
 }
 
+PROPS["C08"] = {
+    "pkg": "p08",
+    "needs_evy": True,
+    "level": "exploration",
+    "level_text": "Repetition oracle: each of ~1.6*10^4 (quick) / ~1.3*10^5 (thorough) cases is parsed, formatted and run 12 (quick) / 40 "
+                  "(thorough) times in one process - Go re-randomises map iteration on every range, so repetition is the adversarial "
+                  "schedule - and Errors.Error(), Program.Format(), the platform trace (incl. graphics calls, rand with a fixed source, "
+                  "read, key events) and the final outcome text must be byte-identical; a sample is also run three times as fresh "
+                  "`evy run --rand-seed 7 --svg-out -` processes (stdout, stderr, exit status).",
+    "level_note": "With k independent entries in a map-backed collection a fixed order survives R repetitions with probability "
+                  "(1/k!)^(R-1) if iteration were really order-dependent, e.g. < 10^-8 for k=3, R=12.",
+    "technique": "property-based testing with a repetition (run-twice) oracle biased to map-iteration sites (rapid)",
+    "tests": [
+        {"name": "TestProp", "quick": {"shards": 8, "checks": 2000}, "thorough": {"shards": 16, "checks": 8000}},
+    ],
+    "rule": "cases: programs built around the places evy keeps things in Go maps (map literals with 3-8 pairs whose values are tracer "
+            "calls, variables, literals and empty literals from type-compatible families; mixed array literals; 2-6 unused variables in "
+            "one scope; font with several valid/invalid properties; several handlers with rand/read), generated model programs, "
+            "accepted and rejected token mutants of repository programs, repository programs. Non-trivial = the case has such a site "
+            "or is rejected with >= 2 errors; distinct by source text.",
+    "assumptions": ["runs that hit the harness's fuel/effect budget are compared only up to 'budget'"],
+}
+
 NOT_APPLICABLE = {}
 
 ENGINES = [
